@@ -12,7 +12,7 @@
      a non-zero amount hits an account while an RHP3 budget is open on the same key.  Without
      it the reservation guard is FALSE of the code (c04_*_refuted; known finding). *)
 From HostdBase Require Import Base.
-From HostdLedger Require Import Model Lib Proofs Proofs2 Proofs3.
+From HostdLedger Require Import Model Lib Proofs Proofs2 Proofs3 Handlers ProofsHandlers ProofsHandlers2.
 
 (* 1. "An account's balance always equals the sum of accepted deposits minus the sum of
       committed withdrawals and is never negative" — stated in N without truncation:
@@ -206,4 +206,106 @@ Example c04_nonvacuous :
   sbal (runs init c04_demo) 0 = 40%N /\ withdrawn init c04_demo 0 = 15%N /\ deposited init c04_demo 0 = 55%N /\
   mBalance (runs init c04_demo) = 44%N /\ mActive (runs init c04_demo) = 2%N /\
   clean false init witness_b = false.
+Proof. vm_compute. repeat split; repeat constructor. Qed.
+
+(* 5. The budget USERS (WP-M4).  Sections 1-4 let any caller issue Budget/Spend/Refund/Commit/
+      Rollback in any order; "failed reservations return their funds" also needs every RPC handler
+      to end the budget it opened — commit or rollback — on every return path.  Handlers.v has the
+      RHP3 handlers of rhp/v3/{rpc,payments,execute}.go as bracketed programs over the ledger
+      operations, every early `return` explicit, composed with the ledger: [sys] = ledger +
+      handler slots, [sact] = a step of handler slot t or an operation of anybody else (deposits,
+      RHP4, reads; never a budget operation: the *Budget never leaves its handler), [sruns] = any
+      interleaving of any number of RPCs on any accounts (slots are reused).
+      Hypotheses, on the input only: [Forall swf l] / [satts l < two128] as in sections 1-4. *)
+
+(* every open budget belongs to a handler that has not returned: for EVERY program that defers the
+   rollback right after it obtained the budget ([bracketed]) ... *)
+Theorem c04_handlers_end_their_budgets : forall prog n l,
+  bracketed prog -> Forall swf l -> (satts l < two128)%N ->
+  forall b bd, nth_error (budgets (led (sruns prog (sinit n) l))) b = Some bd -> bdone bd = false ->
+  exists t p, nth_error (hs (sruns prog (sinit n) l)) t = Some p /\ idle p = false /\ owner p = Some b.
+Proof. exact handlers_end_their_budgets. Qed.
+Print Assumptions c04_handlers_end_their_budgets.
+
+(* ... which the handlers of /repo are: handleRPCPriceTable, handleRPCAccountBalance,
+   handleRPCLatestRevision, handleRPCExecute + programExecutor.Execute/commit/rollback,
+   handleRPCFundAccount, handleRPCRenew *)
+Theorem c04_hostd_handlers_are_bracketed : bracketed (prog_of false).
+Proof. exact hostd_bracketed. Qed.
+Print Assumptions c04_hostd_handlers_are_bracketed.
+
+Theorem c04_hostd_handlers_end_their_budgets : forall n l, Forall swf l -> (satts l < two128)%N ->
+  forall b bd, nth_error (budgets (led (sruns (prog_of false) (sinit n) l))) b = Some bd -> bdone bd = false ->
+  exists t p, nth_error (hs (sruns (prog_of false) (sinit n) l)) t = Some p /\ idle p = false /\ owner p = Some b.
+Proof. exact hostd_handlers_end_their_budgets. Qed.
+Print Assumptions c04_hostd_handlers_end_their_budgets.
+
+(* hence: all handlers returned => every budget is closed, no account is cached in memory, the
+   spendable balance the manager reports is the persisted balance and nothing is reserved *)
+Theorem c04_quiescent_balance_views_agree : forall n l, Forall swf l -> (satts l < two128)%N ->
+  let y := sruns (prog_of false) (sinit n) l in
+  (forall t p, nth_error (hs y) t = Some p -> idle p = true) ->
+  (forall b bd, nth_error (budgets (led y)) b = Some bd -> bdone bd = true) /\
+  forall a, alookup a (mem (led y)) = None /\ get_balance (led y) a = sbal (led y) a /\ openmax (led y) a = 0%N.
+Proof. exact quiescent_views_agree. Qed.
+Print Assumptions c04_quiescent_balance_views_agree.
+
+(* the same for one account while RPCs paid from OTHER accounts are still running *)
+Theorem c04_balance_views_agree_without_running_payer : forall n l a, Forall swf l -> (satts l < two128)%N ->
+  let y := sruns (prog_of false) (sinit n) l in
+  (forall t p b bd, nth_error (hs y) t = Some p -> owner p = Some b ->
+                    nth_error (budgets (led y)) b = Some bd -> bacct bd <> a) ->
+  alookup a (mem (led y)) = None /\ get_balance (led y) a = sbal (led y) a /\ openmax (led y) a = 0%N.
+Proof. exact views_agree_without_running_payer. Qed.
+Print Assumptions c04_balance_views_agree_without_running_payer.
+
+(* the late-defer variant of handleRPCExecute (seeded change C04-mut8: `defer budget.Rollback()`
+   moved from after processPayment to before newExecutor) is not bracketed, and a request whose
+   program cannot be read leaves 4 H of a 10 H account reserved with every handler returned *)
+Theorem c04_late_defer_leaks_refuted :
+  let y := sruns (prog_of true) (sinit 1) late_witness in
+  Forall swf late_witness /\ (satts late_witness < two128)%N /\
+  (forall t p, nth_error (hs y) t = Some p -> idle p = true) /\
+  get_balance (led y) 0 = 6%N /\ sbal (led y) 0 = 10%N /\
+  exists bd, nth_error (budgets (led y)) 0 = Some bd /\ bdone bd = false.
+Proof. exact late_defer_leaks. Qed.
+Print Assumptions c04_late_defer_leaks_refuted.
+
+(* no handler ever gets stuck holding its budget: from every reachable state every handler can run
+   to its return by its own steps (the failing branch of every instruction is always enabled), so
+   "all handlers have returned" is reachable from everywhere *)
+Theorem c04_handler_can_always_return : forall prog n l t p,
+  bracketed prog -> Forall swf l -> (satts l < two128)%N ->
+  nth_error (hs (sruns prog (sinit n) l)) t = Some p ->
+  exists xs, nth_error (hs (sruns prog (sinit n) (l ++ map (SH t) xs))) t = Some PIdle.
+Proof. exact handler_can_always_return. Qed.
+Print Assumptions c04_handler_can_always_return.
+
+(* a budget is ended by the handler that opened it and by nobody else: no two handlers hold the
+   same budget *)
+Theorem c04_budgets_have_one_owner : forall prog l n,
+  bracketed prog -> Forall swf l -> (satts l < two128)%N -> unique_owner (sruns prog (sinit n) l).
+Proof. exact budgets_have_one_owner. Qed.
+Print Assumptions c04_budgets_have_one_owner.
+
+(* non-vacuity: two RPCs interleaved on one account — an account-balance request paid by contract
+   that the renter abandons after paying, and a failing program paid from the account — plus a
+   deposit by somebody else; all handlers return, hypotheses hold, money moved *)
+Definition c04_handlers_demo : list sact :=
+  [ SEnv (SetMax 100); SEnv (Credit 0 50 false false true)
+  ; SH 0 (XStart KExecute); SH 1 (XStart KAccountBalance)
+  ; SH 0 (XExt true); SH 0 (XExt true); SH 0 (XExt true); SH 0 (XPay false 0 30 false true)
+  ; SH 1 (XExt true); SH 1 (XExt true); SH 1 (XExt true); SH 1 (XPay true 0 5 false true); SH 1 (XExt true)
+  ; SH 0 (XBudget true); SH 1 (XBudget true); SH 0 XTau; SH 1 XTau
+  ; SH 1 (XSpend (sto 0)); SH 0 (XExt true); SH 0 (XSpend {| uRpc := 2; uStorage := 0; uEgress := 0; uIngress := 0; uRegR := 0; uRegW := 0 |})
+  ; SEnv (R4Credit [(1, 7)]%N 7 true)
+  ; SH 0 (XExt true); SH 0 (XExt true); SH 0 (XExt true); SH 0 (XExt true); SH 0 XTau
+  ; SH 0 (XInstr {| uRpc := 1; uStorage := 6; uEgress := 3; uIngress := 0; uRegR := 0; uRegW := 0 |} true)
+  ; SH 1 (XExt false); SH 1 (XUnwind true)
+  ; SH 0 XInstrFail; SH 0 (XUnwind true); SH 0 (XUnwind true); SH 0 (XUnwind true) ].
+Example c04_handlers_nonvacuous :
+  let y := sruns (prog_of false) (sinit 2) c04_handlers_demo in
+  Forall swf c04_handlers_demo /\ (satts c04_handlers_demo <? two128)%N = true /\
+  hs y = [PIdle; PIdle] /\ length (budgets (led y)) = 2%nat /\
+  sbal (led y) 0 = 49%N /\ get_balance (led y) 0 = 49%N /\ sbal (led y) 1 = 7%N /\ mBalance (led y) = 56%N.
 Proof. vm_compute. repeat split; repeat constructor. Qed.
